@@ -31,6 +31,14 @@ let parse_op (s : string) : op =
   | ["dr"] -> ODrain
   | _ -> failwith ("bad op " ^ s)
 
+(* one text operation = one or more model operations.  Neutralize() (decrement without release, then forget the
+   pointer) is, atomic step for atomic step, the stop-counting conversion of the slot onto itself followed by a Reset
+   of the then non-counting slot: it needs no model operation of its own *)
+let parse_ops (s : string) : op list =
+  match String.split_on_char ':' s with
+  | ["ne"; l] -> [OAlias (parse_loc l, parse_loc l); OReset (parse_loc l)]
+  | _ -> [parse_op s]
+
 let kmem = nat_of_int 2   (* member Ref slots per Item; the harness's Item has the same number *)
 
 let opt_s = function None -> "_" | Some n -> string_of_int (int_of_nat n)
@@ -86,21 +94,29 @@ let run_single k hdr body =
   | [n; mx; st] ->
     let nslab = n_ n in
     let ops = List.filter (fun x -> x <> "") (String.split_on_char ';' body) in
-    let s = ref (init_state (n_ mx) (n_ st) [List.map parse_op ops]) in
+    let mops = List.map parse_ops ops in
+    let s = ref (init_state (n_ mx) (n_ st) [List.concat mops]) in
     let b = Buffer.create 1024 in
     let anybad = ref false in
-    List.iter (fun _ ->
-      (* begin the operation, then run it to completion *)
-      let (s1, ev0) = step nslab kmem !s O in
-      let ((s2, evs), okf) = run_op nslab kmem fuel s1 O [] in
-      s := s2;
-      let (etxt, bad) = show_events s2 (ios n) (ev0 :: evs) in
-      if bad || not okf then anybad := true;
-      Buffer.add_string b (match ev0 with EvBegin true -> "ok " | EvBegin false -> "skip " | _ -> "?? ");
+    List.iter (fun group ->
+      (* begin each model operation of the group and run it to completion; a skipped first one skips the rest *)
+      let evs_all = ref [] and first = ref None and skipped = ref false in
+      List.iter (fun _ ->
+        let (s1, ev0) = step nslab kmem !s O in
+        let ((s2, evs), okf) = run_op nslab kmem fuel s1 O [] in
+        s := s2;
+        if not okf then anybad := true;
+        (match !first with None -> first := Some ev0 | Some _ -> ());
+        evs_all := !evs_all @ (ev0 :: evs)) group;
+      ignore !skipped;
+      let s2 = !s in
+      let (etxt, bad) = show_events s2 (ios n) !evs_all in
+      if bad then anybad := true;
+      Buffer.add_string b (match !first with Some (EvBegin true) -> "ok " | Some (EvBegin false) -> "skip " | _ -> "?? ");
       Buffer.add_string b etxt;
       Buffer.add_string b "| ";
       Buffer.add_string b (show_dump nslab s2 0);
-      Buffer.add_string b ";") ops;
+      Buffer.add_string b ";") mops;
     Printf.printf "%d %s\n" k (Buffer.contents b);
     if !anybad then Printf.printf "%d ORACLE FAIL model reaches a lifetime violation (EvBad) on this history\n" k
   | _ -> failwith "bad header"
@@ -125,7 +141,7 @@ let run_sched_case k hdr body =
       | _ -> [] in
     let progs = String.split_on_char '/' body in
     let progs = if List.length progs < 2 then progs @ [""; ""] else progs in
-    let ops_of p = List.map parse_op (List.filter (fun x -> x <> "") (String.split_on_char ';' p)) in
+    let ops_of p = List.concat (List.map parse_ops (List.filter (fun x -> x <> "") (String.split_on_char ';' p))) in
     let setup = ops_of (List.nth progs 0) and teardown = ops_of (List.nth progs 1) in
     let workers = List.map ops_of (List.filteri (fun i _ -> i >= 2) progs) in
     let nw = List.length workers in
